@@ -1315,6 +1315,11 @@ class KVDef(EntAttribute):
                     try:
                         float(value)
                     except ValueError:
+                        is_number = False
+                    else:
+                        # float() also accepts blanks and "+", which a bare token cannot hold.
+                        is_number = not any(c in value for c in '+ \t\r\n')
+                    if not is_number:
                         value = f'"{_fgd_escape(custom_syntax, value)}"'
 
                     file.write(f'\t\t{value}: ')
